@@ -403,21 +403,25 @@ def gen_cases(ctx):
     thorough = ctx.tier == 'thorough'
     cases = []
 
-    def add(axes, d, trunc, bd, ops, flavour, what, maxdofs):
+    def add(axes, d, trunc, bd, ops, flavour, what, maxdofs, between=None):
         dim = len(axes)
+        if between is None:
+            between = rng.random() < 0.5
         cases.append({'cfg': {'axes': axes, 'disparity': d, 'truncate': trunc, 'bdspecs': bd}, 'ops': ops,
-                      'seed': rng.randrange(1 << 30), 'forms': forms_for(dim, rng, flavour), 'what': what, 'maxdofs': maxdofs})
+                      'seed': rng.randrange(1 << 30), 'forms': forms_for(dim, rng, flavour), 'what': what, 'maxdofs': maxdofs,
+                      # assemble over the SAME HSpace object after every intermediate refinement
+                      'assemble_between': ({'expr': 'u*v*dx', 'geo': 'id'} if between and dim < 3 else None)})
 
     def rand_ops(dim, nops, maxlv):
         ops = []
         for _ in range(nops):
-            kind = rng.choice(['corner', 'isolated', 'nested', 'multi', 'random', 'multi'])
+            kind = rng.choice(['corner', 'isolated', 'nested', 'multi', 'random', 'multi', 'inner-edge', 'inner-edge'])
             op = {'pick': kind, 'container': rng.choice(['set', 'list', 'tuple']), 'maxlv': maxlv,
                   'trunc': rng.random() < 0.2}
             if kind == 'corner':
                 op['corner'] = [rng.randint(0, 1) for _ in range(dim)]
                 op['n'] = rng.randint(1, 3)
-            if kind == 'nested':
+            if kind in ('nested', 'inner-edge'):
                 op['n'] = rng.randint(1, 2)
             ops.append(op)
         return ops
@@ -440,6 +444,19 @@ def gen_cases(ctx):
     add([uniform_axis(2, 2, mult=2)], None, True, None,
         [{'kind': 'refine', 'marks': [[0, [[0]]]], 'container': 'list'}, {'kind': 'refine', 'marks': [[1, [[1]]]], 'container': 'set'}], 1,
         'hand-1d-stored-zeros', 400)
+    # non-graded hierarchies in which the boundary of Omega_2 touches that of Omega_1 in the interior: a coarse function
+    # meets an active level-1 function only over cells that are refined further
+    add([uniform_axis(1, 4)], None, False, [],
+        [{'kind': 'refine', 'marks': [[0, [[2], [3]]]], 'container': 'set'}, {'kind': 'refine', 'marks': [[1, [[4], [5]]]], 'container': 'set'}],
+        0, 'hand-1d-touching-boundaries', 400, between=True)
+    add([uniform_axis(1, 4), uniform_axis(1, 4)], None, True, None,
+        [{'kind': 'refine', 'marks': [[0, [[2, 2], [2, 3], [3, 2], [3, 3]]]], 'container': 'list'},
+         {'kind': 'refine', 'marks': [[1, [[4, 4], [4, 5], [5, 4], [5, 5]]]], 'container': 'set'}], 3, 'hand-2d-touching-boundaries', 400, between=False)
+    # refine -> assemble -> refine -> assemble on one object without Dirichlet specification; the later calls
+    # deactivate functions of existing levels and add a level
+    add([uniform_axis(2, 3)], 2, False, 'default',
+        [{'kind': 'refine', 'marks': [[0, [[0]]]], 'container': 'set'}, {'kind': 'refine', 'marks': [[0, [[1]]]], 'container': 'set'},
+         {'kind': 'refine', 'marks': [[1, [[0], [1]]]], 'container': 'tuple'}], 1, 'hand-1d-assemble-between', 400, between=True)
     n1 = 40 if thorough else 7
     n2 = 60 if thorough else 5
     n3 = 4 if thorough else 0
@@ -528,9 +545,10 @@ def run(ctx):
         dist[c['what']] = dist.get(c['what'], 0) + 1
         key = (json.dumps(c['cfg'], sort_keys=True), json.dumps(r.get('ops'), sort_keys=True), json.dumps(c['forms'], sort_keys=True))
         ctx.count(key, nontrivial=bool(r.get('ops')))
-        replay = {'cfg': c['cfg'], 'ops': r.get('ops', c['ops']), 'forms': c['forms'],
+        replay = {'cfg': c['cfg'], 'ops': r.get('ops', c['ops']), 'forms': c['forms'], 'assemble_between': c.get('assemble_between'),
                   'how': 'HSpace(kvs from breaks/mults, truncate, disparity, bdspecs [omitted when "default"]); hs.refine({lv: container(cells)}, truncate=trunc) per op; '
-                         'assemble.assemble(parse_vf(expr), hs, symmetric, geo=..., f=...) or HDiscretization(hs, vf, args).assemble_matrix/assemble_functional'}
+                         'assemble.assemble(parse_vf(expr), hs, symmetric, geo=..., f=...) or HDiscretization(hs, vf, args).assemble_matrix/assemble_functional; '
+                         'with assemble_between: assemble.assemble(expr, hs, geo) and hs.dirichlet_dofs() after every refinement but the last, on the same object'}
         if r['status'] != 'Ok':
             nfail += 1
             ctx.report('impl:construct:%dd' % dim, 'constructing / refining the space raised %s' % r['status'], replay)
@@ -543,6 +561,13 @@ def run(ctx):
             continue
         orc = None
         bad_case = False
+        for b in r.get('between', []):
+            if isinstance(b, str):
+                nfail += 1
+                bad_case = True
+                ctx.report('impl:assemble-between-raises:%s:%dd' % (b.split(':')[0], dim),
+                           'assembling over the same HSpace object after an intermediate refinement raised %s' % b, replay)
+                break
         for fs, fr in zip(c['forms'], r['forms']):
             formdist[fs['name'] + '/' + fs['geo']] = formdist.get(fs['name'] + '/' + fs['geo'], 0) + 1
             if 'setup_error' in fr:
@@ -685,12 +710,18 @@ META = {
                   'default_space_assembles (+ _old_refuted: the unpatched loop over bdspecs=None is a TypeError), symmetric_equals_general '
                   '(entry form of the blocks, every symmetric a_k, arbitrary neighbour/interlevel sets), hassemble_entry_diag, '
                   'hassemble_galerkin (entry = form on the finer level ==> entry of I^T A_fine I when the level forms are nested, any number '
-                  'of levels), thb_congruence (T^T M T of a Galerkin matrix is the Galerkin matrix of the transformed basis). PARTIAL: '
-                  'hassemble_entry_lower_partial / hassemble_entry_upper_partial (the interlevel blocks equal the form applied to the two '
-                  'basis functions on the finer level, given (1) representations of neighbours vanish outside interlevel_ix and (2) '
-                  'non-neighbours have no non-zero term; (1), the geometric half of (2) and the sufficiency of the disparity window are NOT '
-                  'proved for the concrete sets). NOT PROVED: that the sparse-matrix program (COO merge, fancy indexing, represent_fine, '
-                  'thb_to_hb) computes the entry form: compared exactly per history (sampled entries) and with the implementation. '
+                  'of levels), thb_congruence (T^T M T of a Galerkin matrix is the Galerkin matrix of the transformed basis), '
+                  'functional_entry (entry offset_k+p of the HB load vector is the level-k vector at the p-th active function of level k: '
+                  'every function is integrated with its own level\'s quadrature), coo_merge_sums_duplicates (COO->CSR returns the sum of '
+                  'all triplets at (i,j)), insert_block_entries, fancy_index_rows / fancy_index_columns (numpy semantics of M[idx], M[:,idx]), '
+                  'window_sufficient_old_refuted. PARTIAL: hassemble_entry_partial (for the CONCRETE neighbors / interlevel_ix / '
+                  'to_assemble of the model and representations = products of Kronecker prolongators, every pair of active functions of '
+                  'every level pair: the blocks equal the form applied to the two basis functions on the finer level; from locality of the '
+                  'level forms, P_local (children inside the parent\'s support, a hypothesis on the prolongator data), C04\'s mesh_ok and '
+                  'index-box facts; the support-pattern lemma for products of Kronecker matrices is proved), '
+                  'hassemble_entry_lower_partial / hassemble_entry_upper_partial (the abstract-set versions). NOT PROVED: that the sparse '
+                  'products, transpose, Kronecker product and the represent_fine loop of the sparse-matrix program evaluate the entry form '
+                  '(compared exactly per history on sampled entries and with the implementation); P_local for the exact Boehm matrices. '
                   'Tie: per history the model is run inside Coq on the implementation\'s own level matrices/vectors/prolongators (exact '
                   'dyadic arithmetic): rows and bounding boxes passed to _assemble_level and cell_supp_indices exact; HB/THB matrices '
                   '(general and symmetric), load vectors, thb_to_hb within |x - v| <= 2^-38 * sum|terms|. Oracle on the implementation: entry '
